@@ -28,5 +28,6 @@ def run(ctx, rep):
     rep.analysed['configs'] = cfgs + ['logos-forbid']
     if ctx.tier == 'thorough':
         rt.rule_witnesses(rep, ctx)
+    rt.rt_controls(rep, ctx, ['M-C05a', 'M-C15a'])
     rep.trusted += ['rustc nightly MIR construction', 'engines/mirfacts', 'std: ptr::add, get_unchecked contracts']
     rep.assumptions += ['positions passed to LexerInternal::end by generated code are within the source (decided on generated code by G7c)']
